@@ -24,7 +24,7 @@ LEVEL_TEXT = ('Three finite families of DAQmx segments are enumerated completely
 LEVEL_NOTE = ('Trusted: the DAQmx raw-data-index encoder in mc/tdmsgen.py (written from the format description; Digital_Input.tdms and '
               'raw1.tdms from LabVIEW are decoded structurally by selftest). Digital-line scalers wider than one byte are explored in '
               'little-endian only (the addressed bit of a big-endian multi-byte digital word is not defined by the statement).')
-ASSUMPTIONS = ['all scalers of one channel live in one raw buffer', 'buffer bytes are a fixed pattern, not random (VERIF_SEED rotates its phase)']
+ASSUMPTIONS = ['raw buffers that hold scalers of one channel have equal lengths', 'buffer bytes are a fixed pattern, not random (VERIF_SEED rotates its phase)']
 
 A, B, C = F.A, F.B, F.C
 CODE2TYPE = {0: 'Uint8', 1: 'Int8', 2: 'Uint16', 3: 'Int16', 4: 'Uint32', 5: 'Int32', 6: 'Uint64', 7: 'Int64', 8: 'SingleFloat', 9: 'DoubleFloat'}
@@ -58,6 +58,15 @@ def fam_b():
                         for big in ((False, True) if size == 1 else (False,)):
                             sc = [(code, 0, bit, 0, 0)]
                             yield ('B', [G.seg([(A, F.daqmx_enc(n, sc, [width], 'dl'), nscales(sc))], chunks=chunks, big=big)])
+    # lines sharing one byte: a port exactly as wide as the scaler type, and chunks of a single row
+    for width, n in ((1, 3), (1, 1), (2, 1), (3, 1)):
+        for chunks in (1, 2, 3):
+            for big in (False, True):
+                objs = [("/'g'/'l%d'" % b, F.daqmx_enc(n, [(0, 0, b, 0, 0)], [width], 'dl'), nscales([(0, 0, b, 0, 0)])) for b in (0, 1, 5, 7)]
+                yield ('B', [G.seg(objs, chunks=chunks, big=big)])
+    for chunks in (1, 2):
+        sc = [(4, 0, 0, 0, 0), (4, 0, 3, 0, 1), (4, 0, 7, 0, 2)]
+        yield ('B', [G.seg([(A, F.daqmx_enc(2, sc, [4], 'dl'), nscales(sc))], chunks=chunks)])
     # several digital lines of one port as several channels
     for chunks in (1, 2):
         objs = [("/'g'/'line%d'" % b, F.daqmx_enc(2, [(0, 0, b, 0, 0)], [2], 'dl'), nscales([(0, 0, b, 0, 0)])) for b in range(0, 16, 3)]
@@ -88,6 +97,26 @@ def fam_c(tier):
                                 same = [(o[0], ['SAME']) for o in objs]
                                 yield ('C', [G.seg(objs, chunks=1, big=big), G.seg([], meta=False, chunks=2, big=not big),
                                              G.seg(same, newlist=False, chunks=1, big=big), G.seg(same, newlist=False, chunks=1, big=not big)])
+
+
+def fam_d():
+    """one channel whose scalers live in several raw buffers, listed in non-adjacent buffer order (0, 1, 0) and (1, 0, 1, 0)"""
+    for order in ((0, 1, 0), (1, 0, 1, 0), (0, 1, 2), (2, 0, 1, 0)):
+        nb = max(order) + 1
+        widths = [11, 14, 6][:nb]
+        for chunks in (1, 2):
+            for big in (False, True):
+                used = {}
+                sc = []
+                for sid, bi in enumerate(order):
+                    off = used.get(bi, 0)
+                    sc.append((3, bi, off, 0, sid))
+                    used[bi] = off + 3
+                objs = [(A, F.daqmx_enc(3, sc, widths), nscales(sc))]
+                for bi in range(nb):
+                    sb = [(1, bi, widths[bi] - 1, 0, 0)]
+                    objs.append(("/'g'/'b%d'" % bi, F.daqmx_enc(3, sb, widths), nscales(sb)))
+                yield ('D', [G.seg(objs, chunks=chunks, big=big), G.seg([], meta=False, chunks=2, big=big)])
 
 
 def fam_t():
@@ -218,7 +247,7 @@ def _worker(item):
 
 def run(ctx):
     from ..run import merge
-    allh = list(fam_a()) + list(fam_b()) + list(fam_c(ctx.tier)) + list(fam_t())
+    allh = list(fam_a()) + list(fam_b()) + list(fam_c(ctx.tier)) + list(fam_t()) + list(fam_d())
     items = []
     step = 40
     for famname in sorted(set(f for f, _h in allh)):
